@@ -525,6 +525,11 @@ Interval<To_Boundary, To_Info>::refine_universal(Relation_Symbol rel,
   switch (rel) {
   case LESS_THAN:
     {
+      if (is_boundary_infinity(LOWER, f_lower(x), f_info(x))) {
+        // No value is less than all the elements of an interval
+        // that is unbounded from below.
+        return assign(EMPTY);
+      }
       if (lt(UPPER, upper(), info(), LOWER, f_lower(x), f_info(x))) {
         return combine(V_EQ, V_EQ);
       }
@@ -537,6 +542,9 @@ Interval<To_Boundary, To_Info>::refine_universal(Relation_Symbol rel,
     }
   case LESS_OR_EQUAL:
     {
+      if (is_boundary_infinity(LOWER, f_lower(x), f_info(x))) {
+        return assign(EMPTY);
+      }
       if (le(UPPER, upper(), info(), LOWER, f_lower(x), f_info(x))) {
         return combine(V_EQ, V_EQ);
       }
@@ -548,6 +556,11 @@ Interval<To_Boundary, To_Info>::refine_universal(Relation_Symbol rel,
     }
   case GREATER_THAN:
     {
+      if (is_boundary_infinity(UPPER, f_upper(x), f_info(x))) {
+        // No value is greater than all the elements of an interval
+        // that is unbounded from above.
+        return assign(EMPTY);
+      }
       if (gt(LOWER, lower(), info(), UPPER, f_upper(x), f_info(x))) {
         return combine(V_EQ, V_EQ);
       }
@@ -560,6 +573,9 @@ Interval<To_Boundary, To_Info>::refine_universal(Relation_Symbol rel,
     }
   case GREATER_OR_EQUAL:
     {
+      if (is_boundary_infinity(UPPER, f_upper(x), f_info(x))) {
+        return assign(EMPTY);
+      }
       if (ge(LOWER, lower(), info(), UPPER, f_upper(x), f_info(x))) {
         return combine(V_EQ, V_EQ);
       }
